@@ -426,3 +426,8 @@ CASES.append(explicit_quantity_case())
 from props import C13 as _C13
 CASES.append(_C13.species_state_case("dict:e0,default", 2, "grid"))
 CASES.append(_C13.species_state_case("dict:e0,default", 2, "graph"))
+
+# exported ODE right-hand side in a requested units system: C01's make_dxdtf cases
+from props import C01 as _C01
+for _s, _p in (((1, 1), (1, 0)), ((2, 0), (0, 1))):
+    CASES.append(_C01.dxdtf_case(_s, _p))
